@@ -1,4 +1,5 @@
 import Pm.Dev2Proof
+import Pm.Dev2Walk
 namespace Pm.Dev2
 
 /-- completions reported for client `cid` -/
@@ -22,12 +23,8 @@ theorem fcount_noFinish (cid : Nat) (l : List Out) (h : ∀ x ∈ l, isFinish x 
 
 theorem finishConnectOne_acts (c : CS) : (finishConnectOne c).1.dev.acts = c.dev.acts := by
   unfold finishConnectOne; grind
-theorem connectOne_acts (c : CS) : (connectOne c).1.dev.acts = c.dev.acts := by
-  have := finishConnectOne_acts
-  unfold connectOne; grind
-theorem tcpConnect_acts (c : CS) : (tcpConnect c).1.dev.acts = c.dev.acts := by
-  have := connectOne_acts
-  unfold tcpConnect; grind
+theorem connectOne_acts (c : CS) : (connectOne c).1.dev.acts = c.dev.acts := (connectOne_frame c).dev.acts
+theorem tcpConnect_acts (c : CS) : (tcpConnect c).1.dev.acts = c.dev.acts := (tcpConnect_frame c).dev.acts
 theorem pipeConnect_acts (c : CS) : (pipeConnect c).1.dev.acts = c.dev.acts := by
   unfold pipeConnect; grind
 
@@ -85,7 +82,7 @@ theorem failAll_count (rest : List Action) (c : CS) (a : Action) (o : Oracle) (o
       = fcount cid out + qcount cid (a :: rest) := by
   unfold failAll
   dsimp only
-  have hr := reconnectDev_empty { c with dev := { c.dev with acts := [] } } tmo cid hc rfl
+  have hr := reconnectDev_empty { c with dev := { c.dev with acts := [], xmStr := none, xmResult := false, xmUsed := false } } tmo cid hc rfl
   split
   · simp only [fcount_append, fcount_headFin cid hc, fcount_restFin cid hc, qcount_cons]
     generalize reconnectDev _ tmo = r at *
@@ -180,7 +177,7 @@ theorem failAll_queue_empty (rest : List Action) (c : CS) (a : Action) (o : Orac
     (cid : Nat) (hc : cid ≠ 0) : qcount cid (failAll rest c a o out tmo).1.dev.acts = 0 := by
   unfold failAll
   dsimp only
-  have hr := reconnectDev_empty { c with dev := { c.dev with acts := [] } } tmo cid hc rfl
+  have hr := reconnectDev_empty { c with dev := { c.dev with acts := [], xmStr := none, xmResult := false, xmUsed := false } } tmo cid hc rfl
   split
   · simpa using hr
   · simp
